@@ -268,8 +268,6 @@ def model_sql(case: dict, which: str, exc: BaseException):
     code = None
     for arg in exc.args:
         if isinstance(arg, str):
-            if any(ord(c) > 127 for c in arg):
-                return None  # keep the independent tokenizer to ASCII text
             code = extract_word_code(arg) if which == "sqlstate" else extract_bracket_code(arg)
             if code:
                 break
@@ -448,6 +446,7 @@ def exc_case(draw, directed: str | None = None):
                 st.one_of(
                     value_st(),
                     st.sampled_from(["[40001] deadlock", "('HYT00', 'timeout')", "ORA-00001", "SQLSTATE 08S01 link", "x[28000]y", "code=42P01", "[4000]", "[400011]"]),
+                    st.sampled_from(["ポート ５４３２１ に接続できません", "خطأ ٤٢٠٠٠ في", "１２３４５ then 40001", "[４０００１] full-width", "é40001", "40001é", "०८S०१ link", "ＨＹＴ００ timeout 08S01"]),
                     st.sampled_from(DOC_CODES),
                 ),
                 max_size=3,
